@@ -117,6 +117,9 @@ def main():
     for c in PYTREE_CORPUS + [gen_pytree_case(R.rng) for _ in range(npt)]:
         c = dict(c); c.setdefault("shapes", {}); c.setdefault("dtypes", {}); c.setdefault("ret_shape", []); c.setdefault("ret_dtype", "float32")
         cases.append(c)
+    for c in cases[len(CORPUS):]:
+        if R.rng.random() < .5:
+            c["local_class"] = R.rng.choice(["first", "last"])     # an extra, always well-typed parameter `cfg: Config` (class created per function)
     for c in cases:
         c["variants"] = [{"checker": chk, "remove_stack": rs} for chk in ("typeguard", "beartype") for rs in (False, True)]
     nw = 8
